@@ -1,6 +1,7 @@
 package main
 
 import (
+	"regexp"
 	"encoding/json"
 	"flag"
 	"fmt"
@@ -74,6 +75,11 @@ type unit struct {
 	res  *FuncResult
 }
 
+var backEdgeSuffix = regexp.MustCompile(`(/preserve|/entry|/decreases)@b\d+`)
+
+// canonObl drops the block number of the back edge from a loop obligation's name.
+func canonObl(n string) string { return backEdgeSuffix.ReplaceAllString(n, "$1") }
+
 func main() {
 	if len(os.Args) < 2 {
 		fatal(2, "usage: govc check|dump ...")
@@ -95,6 +101,17 @@ func main() {
 				fatal(2, "%v", err)
 			}
 			fmt.Printf("%s: %d funcs, %d spec funcs, %d lemmas\n", f, len(cf.Funcs), len(cf.SpecFuncs), len(cf.Lemmas))
+		}
+	case "funcs":
+		// govc funcs <module-dir> <pkg-pattern> [substring]: names of the SSA functions (debug aid)
+		P, err := LoadProgram(os.Args[2], []string{os.Args[3]}, nil)
+		if err != nil {
+			fatal(2, "%v", err)
+		}
+		for _, fn := range P.AllSourceFuncs() {
+			if len(os.Args) < 5 || strings.Contains(fn.String(), os.Args[4]) {
+				fmt.Printf("%s\ttypeparams=%d typeargs=%d origin=%v\n", fn.String(), fn.TypeParams().Len(), len(fn.TypeArgs()), fn.Origin() != nil)
+			}
 		}
 	default:
 		fatal(2, "unknown command %s", os.Args[1])
@@ -390,6 +407,9 @@ func cmdCheck(args []string) {
 	baseline := map[string]bool{}
 	for _, l := range readLines(baselinePath) {
 		baseline[l] = true
+		// also under the canonical name (without the back-edge block number): a loop whose body gains or
+		// loses a `continue` keeps its invariant-preservation obligations
+		baseline[canonObl(l)] = true
 	}
 	haveBaseline := len(baseline) > 0
 
@@ -408,7 +428,7 @@ func cmdCheck(args []string) {
 	rsem := make(chan struct{}, max(1, runtime.NumCPU()/4))
 	for _, r := range runs {
 		if r.res.Status == "timeout" || r.res.Status == "unknown" {
-			if r.u != nil && r.u.res != nil && r.u.res.Ctx != nil && (baseline[r.o.Name] || !haveBaseline) && !r.o.ExpectSat {
+			if r.u != nil && r.u.res != nil && r.u.res.Ctx != nil && (baseline[canonObl(r.o.Name)] || !haveBaseline) && !r.o.ExpectSat {
 				rwg.Add(1)
 				go func(r *oblRun) {
 					defer rwg.Done()
@@ -434,6 +454,7 @@ func cmdCheck(args []string) {
 	var names []string
 	for _, r := range runs {
 		seen[r.o.Name] = true
+		seen[canonObl(r.o.Name)] = true
 		solverTime += r.res.Seconds
 		if slowest == nil || r.res.Seconds > slowest.res.Seconds {
 			slowest = r
@@ -462,7 +483,7 @@ func cmdCheck(args []string) {
 			bySolver[r.res.Solver]++
 			names = append(names, r.o.Name)
 		default:
-			if haveBaseline && !baseline[r.o.Name] {
+			if haveBaseline && !baseline[canonObl(r.o.Name)] {
 				// new obligation that does not discharge: only a model (sat) is reported
 				if r.res.Status == "sat" {
 					failures = append(failures, r)
@@ -485,7 +506,7 @@ func cmdCheck(args []string) {
 	}
 	var missing []string
 	for n := range baseline {
-		if !seen[n] {
+		if !seen[n] && !seen[canonObl(n)] {
 			missing = append(missing, n)
 		}
 	}
